@@ -9,11 +9,59 @@ Decided:
               passes the filter. Compared on normalised HIR trees (alpha-renamed, positions stripped).
   AGREE-C27b  effective_timestamp and is_retracted are the same callees in both; Memvid's public wrappers
               (get_current_memory / get_memory_at_time) delegate to these two functions with their own arguments.
+  MPT-C27c    persistence across recovery: rebuild_indexes (which open-time WAL replay reaches) rewrites the card and
+              graph tracks from the handle's in-memory state and clears their TOC manifests when that state is empty.
+              So in open_locked the loader of every such track (the callee that stores Memvid.<track>) must run
+              before recover_wal, never after it - otherwise a replay persists an empty track over the committed one.
+              The set of tracks is read off rebuild_indexes (Toc fields it can set to None that have an in-memory
+              twin on Memvid), not listed by hand.
 Not decided: persistence round-trip of the card set (values)."""
 from . import lib, hirtree as H
 
 
+def loaders_before_replay(ctx, F):
+    ctx.rule('MPT-C27c', 'open_locked loads every track that rebuild_indexes re-persists from memory before recover_wal')
+    rb = ctx.need('MPT-C27c', 'Memvid::rebuild_indexes')
+    ol = ctx.need('MPT-C27c', 'Memvid::open_locked')
+    if rb is None or ol is None:
+        return
+    ctx.touch(ol, len(ol.blocks))
+    rw = ol.calls_to('Memvid::recover_wal')
+    if not rw:
+        ctx.lost('MPT-C27c', 'open_locked no longer calls recover_wal')
+        return
+    mem = F.adt('Memvid')
+    mem_fields = {f['name'] for v in mem['variants'] for f in v['fields']} if mem else set()
+    tracks = set()
+    for st in lib.field_stores(rb, 'Toc'):
+        fo = st['lhs'].field_owners()
+        if fo[-1][0] == 'Toc' and fo[-1][1] in mem_fields and 'Option::None' in lib.slice_back(rb, lib.rv_operands(st['rv']), through_calls=False, at=(st['bb'], st['idx'])).aggs:
+            tracks.add(fo[-1][1])
+    ctx.floor('MPT-C27c', len(tracks), 2, 'tracks rebuild_indexes re-persists from in-memory state (memories_track, logic_mesh)')
+    sb, _ = ol.success_block(rw[0])
+    after = ol.reachable(sb) if sb is not None else set()
+    for t in sorted(tracks):
+        loaders = []
+        for c in ol.calls():
+            lc = c.local_callee
+            if lc and lc in F.fns and lc != rw[0].local_callee:
+                g = F.fns[lc]
+                if any(st['lhs'].field_owners()[-1] == ('Memvid', t) for st in lib.field_stores(g, 'Memvid', t)):
+                    loaders.append(c)
+        ctx.evaluations += 1
+        if not loaders:
+            ctx.lost('MPT-C27c', 'open_locked: no loader of Memvid.%s found' % t)
+            continue
+        late = [c for c in loaders if c.bb in after]
+        if late:
+            ctx.bad('MPT-C27c', ol, '%s runs after recover_wal: a WAL replay at open calls rebuild_indexes with an empty in-memory %s and persists that (manifest cleared), '
+                    'so the committed %s is lost after any crash recovery' % (late[0].key.split('::')[-1], t, t.replace('_', ' ')), line=late[0].line, sink='Toc.' + t, detail='loaded-after-replay:' + t)
+        else:
+            ctx.ok('MPT-C27c', ol, 'Memvid.%s is loaded (%s) before recover_wal' % (t, loaders[0].key.split('::')[-1]), line=loaders[0].line)
+
+
 def run(ctx):
+    loaders_before_replay(ctx, ctx.facts())
     ctx.rule('AGREE-C27a', 'get_at_time == get_current + one filter stage (effective_timestamp() <= timestamp) before the same sort and find')
     ctx.rule('AGREE-C27b', 'Memvid wrappers delegate to MemoriesTrack::get_current / get_at_time with their own arguments')
     F = ctx.facts()
